@@ -97,7 +97,11 @@ func (p *Printer) imports(sb *strings.Builder) {
 
 // spacing between tokens inside an expression (may be empty where the syntax allows)
 func (p *Printer) sp() string {
-	switch p.S.N(8, "spacing") {
+	switch p.S.N(10, "spacing") {
+	case 8:
+		return " # c\r " // a lone carriage return ends a line, and with it a comment
+	case 9:
+		return " // c\r\n "
 	case 1:
 		return "  "
 	case 2:
@@ -127,7 +131,11 @@ func (p *Printer) sp0() string {
 func (p *Printer) must() string { return p.sp() }
 
 func (p *Printer) nl() string {
-	switch p.S.N(5, "line-end") {
+	switch p.S.N(7, "line-end") {
+	case 5:
+		return " # end\r"
+	case 6:
+		return "\r"
 	case 1:
 		return "\n\n"
 	case 2:
